@@ -177,7 +177,7 @@ impl Format for Dbc {
             let withs = rec.call("DbcParser::with_schema", || DbcParser::parse_bytes(input).and_then(|q| q.with_schema(schema(seed.aux))));
             if let Some(ps) = &withs {
                 if let Some(mut rs) = rec.call("DbcParser::parse_records[schema]", || ps.parse_records()) {
-                    rec.call_plain("RecordSet::get_string", || {
+                    rec.leaf_plain("RecordSet::get_string", || {
                         let mut n = 0;
                         for r in rs.records().iter().take(2000) {
                             for v in r.values() {
@@ -189,8 +189,8 @@ impl Format for Dbc {
                         }
                         n
                     });
-                    let _ = rec.call("RecordSet::create_sorted_key_map", || rs.create_sorted_key_map());
-                    rec.call_plain("RecordSet::get_record_by_key", || {
+                    let _ = rec.leaf("RecordSet::create_sorted_key_map", || rs.create_sorted_key_map());
+                    rec.leaf_plain("RecordSet::get_record_by_key", || {
                         let _ = rs.get_record_by_key(10);
                         let _ = rs.get_record_by_key_binary_search(10);
                         let _ = rs.get_record(0);
@@ -213,7 +213,7 @@ impl Format for Dbc {
                         continue;
                     }
                     let lazy = LazyDbcParser::new(p.data(), &hdr, sch, Arc::clone(sb));
-                    let _ = rec.call(&format!("LazyDbcParser::record_iterator[{tag}]"), || {
+                    let _ = rec.leaf(&format!("LazyDbcParser::record_iterator[{tag}]"), || {
                         // bounded walk: the iterator of a conforming implementation ends or errs
                         let mut n = 0u32;
                         for x in lazy.record_iterator() {
@@ -226,22 +226,22 @@ impl Format for Dbc {
                         Ok::<u32, wow_cdbc::Error>(n)
                     });
                     for (which, idx) in [("first", 0u32), ("last", hdr.record_count.wrapping_sub(1)), ("count", hdr.record_count)] {
-                        let _ = rec.call(&format!("LazyDbcParser::get_record[{tag}]"), || lazy.get_record(idx));
+                        let _ = rec.leaf(&format!("LazyDbcParser::get_record[{tag}]"), || lazy.get_record(idx));
                         let _ = which;
                     }
-                    let _ = rec.call(&format!("parse_records_parallel[{tag}]"), || wow_cdbc::parse_records_parallel(p.data(), &hdr, sch, Arc::clone(sb)));
+                    let _ = rec.leaf(&format!("parse_records_parallel[{tag}]"), || wow_cdbc::parse_records_parallel(p.data(), &hdr, sch, Arc::clone(sb)));
                 }
-                let _ = rec.call("SchemaDiscoverer::discover", || SchemaDiscoverer::new(&hdr, p.data(), sb).discover());
-                let _ = rec.call("SchemaDiscoverer::generate_schema", || SchemaDiscoverer::new(&hdr, p.data(), sb).with_max_records(50).generate_schema("T"));
+                let _ = rec.leaf("SchemaDiscoverer::discover", || SchemaDiscoverer::new(&hdr, p.data(), sb).discover());
+                let _ = rec.leaf("SchemaDiscoverer::generate_schema", || SchemaDiscoverer::new(&hdr, p.data(), sb).with_max_records(50).generate_schema("T"));
             }
         }
         // memory-mapped path
         let path = scratch.join("t.dbc");
         if std::fs::write(&path, input).is_ok() {
             if let Some(mm) = rec.call("MmapDbcFile::open", || MmapDbcFile::open(&path)) {
-                let _ = rec.call("MmapDbcFile::parser.parse_records", || mm.parser().parse_records());
-                let _ = rec.call("MmapDbcFile::parser_with_schema.parse_records", || mm.parser_with_schema(schema(seed.aux)).and_then(|q| q.parse_records()));
-                let _ = rec.call("MmapDbcFile::string_block", || mm.string_block());
+                let _ = rec.leaf("MmapDbcFile::parser.parse_records", || mm.parser().parse_records());
+                let _ = rec.leaf("MmapDbcFile::parser_with_schema.parse_records", || mm.parser_with_schema(schema(seed.aux)).and_then(|q| q.parse_records()));
+                let _ = rec.leaf("MmapDbcFile::string_block", || mm.string_block());
             }
             let _ = std::fs::remove_file(&path);
         }
